@@ -33,7 +33,8 @@ def _cast_kinds(fns):
             if b.cleanup:
                 continue
             for st in b.stmts:
-                if st[0] == "a" and st[2][0] == "cast" and st[2][1] in ("IntToFloat", "FloatToInt"):
+                if st[0] == "a" and st[2][0] == "cast" and st[2][1] in ("IntToFloat", "FloatToInt") \
+                        and st[2][2][0] in ("c", "m"):      # of a value, not of a constant (`i64::MAX as f64`)
                     out.add(st[2][1])
     return out
 
@@ -58,12 +59,14 @@ def rule_hasheq(cx, tier):
     r.nontrivial += 1
     eq_casts = _cast_kinds(_closure_fns(cx, eq))
     hs_casts = _cast_kinds(_closure_fns(cx, hs))
-    ok = (not eq_casts) or bool(hs_casts)
+    # direction agreement: == looks at an integer through `as f64` (so 2^53 + 1 == 2^53 as a float); a hash that
+    # never converts an integer that way writes the raw integer and separates keys that == identifies
+    ok = (not eq_casts) or (bool(hs_casts) and eq_casts <= hs_casts)
     if not ok:
         r.add(Finding("R-HASHEQ", hs.qual, "normalise", f"KNumber::eq compares across representations "
-                      f"({sorted(eq_casts)}: `1 == 1.0`) but KNumber::hash hashes each representation's own bits with no "
-                      f"int/float conversion: equal numbers get different hashes, so a map entry stored under 1 is not "
-                      f"found under 1.0", hs.file, hs.line))
+                      f"({sorted(eq_casts)}: `1 == 1.0`, `9007199254740993 == 9007199254740992.0`) but KNumber::hash "
+                      f"{'converts only ' + str(sorted(hs_casts)) if hs_casts else 'hashes each representation with no int/float conversion'}: "
+                      f"numbers that compare equal get different hashes, so one key addresses two map entries", hs.file, hs.line))
     r.sample({"type": "KNumber", "eq_conversions": sorted(eq_casts), "hash_conversions": sorted(hs_casts), "ok": ok})
     # (b) ValueKey: component delegation agrees
     eq = _impl_fn(cx, "koto_runtime", "ValueKey", "PartialEq", "eq")
@@ -375,3 +378,4 @@ def rule_replace_atomic(cx, tier):
     r.analysed = {"remove_by_index_sites": n}
     r.floor("swap_remove_index / shift_remove_index sites in koto_runtime", n, 1)
     return r
+
